@@ -42,7 +42,7 @@ variable {Fp : Type}
 
 /-- Regenerating from the emitted hints yields exactly the x-coordinates chosen by the search — for every
     squareness oracle, every curve-test oracle, every α, every table content, every fuel; hints ≥ 20 included. -/
-theorem from_to_hint (S : Search Fp) (hA : Add1Small S.E) (fuel : Nat) (r : Hinted Fp)
+theorem from_to_hint (S : Search Fp) (hA : Add1Small S.E) (hgP : GuardOK S.guardP) (hgQ : GuardOK S.guardQ) (fuel : Nat) (r : Hinted Fp)
     (h : toHint S fuel = .ok r) :
     fromHint S (r.hintP : Int) (r.hintQ : Int) = .ok (r.xP, r.xQ) := by
   unfold toHint at h
@@ -63,7 +63,7 @@ theorem from_to_hint (S : Search Fp) (hA : Add1Small S.E) (fuel : Nat) (r : Hint
       obtain ⟨_, c2, _, _⟩ := abOuter_spec S.E hA S.ocQ S.mulAlpha S.ztab fuel 0 S.junk S.junk h1 xQ
         (by intro hh; unfold NTAB at hh; omega) hq
       unfold fromHint
-      rw [naFromHint_of_cand S.E S.tab h0 xP c1, abFromHint_of_z2 S.E S.mulAlpha S.ztab h1 xQ c2]
+      rw [naFromHint_of_cand S.E S.guardP hgP S.tab h0 xP c1, abFromHint_of_z2 S.E S.guardQ hgQ S.mulAlpha S.ztab h1 xQ c2]
 
 /-- The emitted hints are acceptable and minimal: no smaller counter is acceptable. -/
 theorem to_hint_minimal (S : Search Fp) (hA : Add1Small S.E) (fuel : Nat) (r : Hinted Fp)
@@ -92,7 +92,7 @@ theorem to_hint_minimal (S : Search Fp) (hA : Add1Small S.E) (fuel : Nat) (r : H
 /-- Determinism: two runs whose oracles agree emit the same hints and points whatever the fuel
     (the result is a function of the oracles, i.e. of the curve, not of (A:C)'s representative or of leftovers
     in the uninitialised locals). -/
-theorem to_hint_deterministic (S : Search Fp) (hA : Add1Small S.E) (fuel fuel' : Nat) (junk' : Fp × Fp) (r r' : Hinted Fp)
+theorem to_hint_deterministic (S : Search Fp) (hA : Add1Small S.E) (hgP : GuardOK S.guardP) (hgQ : GuardOK S.guardQ) (fuel fuel' : Nat) (junk' : Fp × Fp) (r r' : Hinted Fp)
     (h : toHint S fuel = .ok r) (h' : toHint { S with junk := junk' } fuel' = .ok r') :
     r.hintP = r'.hintP ∧ r.hintQ = r'.hintQ ∧ r.xP = r'.xP ∧ r.xQ = r'.xQ := by
   obtain ⟨g1, m1, g2, m2⟩ := to_hint_minimal S hA fuel r h
@@ -107,8 +107,8 @@ theorem to_hint_deterministic (S : Search Fp) (hA : Add1Small S.E) (fuel fuel' :
     · have := m2' _ hlt; simp_all
     · exact heq
     · have := m2 _ hgt; simp_all
-  have f1 := from_to_hint S hA fuel r h
-  have f2 := from_to_hint { S with junk := junk' } hA fuel' r' h'
+  have f1 := from_to_hint S hA hgP hgQ fuel r h
+  have f2 := from_to_hint { S with junk := junk' } hA hgP hgQ fuel' r' h'
   have : fromHint { S with junk := junk' } = fromHint S := rfl
   rw [this, ← e1, ← e2, f1] at f2
   have e3 := Res.ok.inj f2
@@ -123,34 +123,36 @@ theorem readTab_safe (tab : List (Fp × Fp)) (i : Int) (h0 : 0 ≤ i) (h1 : i < 
   rw [List.getElem?_eq_getElem this]
   simp
 
-/-- `0 ≤ hint` (and tables of 20 entries) ⇒ `from_hint` never reads outside a table -/
+/-- FULL STRENGTH (after fix 6d4be0a): for EVERY pair of C `int` hints — negative ones included — `from_hint` never reads
+    outside a table, provided the guards of the two table reads are "0 ≤ hint < 20" (proved for the guards regenerated from
+    basis.c in `generated_guards_ok`) and the tables have 20 entries -/
 theorem from_hint_index_safe (S : Search Fp) (ht : S.tab.length = NTAB) (hz : S.ztab.length = NTAB)
-    (h0 h1 : Int) (p0 : 0 ≤ h0) (p1 : 0 ≤ h1) : fromHint S h0 h1 ≠ .oob := by
-  unfold fromHint naFromHint abFromHint
-  by_cases c0 : h0 < (NTAB : Int)
-  · simp only [c0, if_true]
-    have s0 := readTab_safe S.tab h0 p0 (by rw [ht]; exact c0)
-    cases e0 : readTab S.tab h0 with
-    | oob => exact absurd e0 s0
-    | fuel => simp
-    | ok x =>
-      by_cases c1 : h1 < (NTAB : Int)
-      · simp only [c1, if_true]
-        have s1 := readTab_safe S.ztab h1 p1 (by rw [hz]; exact c1)
-        cases e1 : readTab S.ztab h1 with
-        | oob => exact absurd e1 s1
-        | fuel => simp
-        | ok z => simp
-      · simp [c1]
-  · simp only [c0, if_false]
-    by_cases c1 : h1 < (NTAB : Int)
+    (hgP : GuardOK S.guardP) (hgQ : GuardOK S.guardQ) (h0 h1 : Int) : fromHint S h0 h1 ≠ .oob := by
+  have na : naFromHint S.E S.guardP S.tab h0 ≠ .oob := by
+    unfold naFromHint
+    by_cases c0 : S.guardP h0 = true
+    · simp only [c0, if_true]
+      exact readTab_safe S.tab h0 ((hgP h0).mp c0).1 (by rw [ht]; exact ((hgP h0).mp c0).2)
+    · simp [c0]
+  have ab : abFromHint S.E S.guardQ S.mulAlpha S.ztab h1 ≠ .oob := by
+    unfold abFromHint
+    by_cases c1 : S.guardQ h1 = true
     · simp only [c1, if_true]
-      have s1 := readTab_safe S.ztab h1 p1 (by rw [hz]; exact c1)
+      have s1 := readTab_safe S.ztab h1 ((hgQ h1).mp c1).1 (by rw [hz]; exact ((hgQ h1).mp c1).2)
       cases e1 : readTab S.ztab h1 with
       | oob => exact absurd e1 s1
       | fuel => simp
       | ok z => simp
     · simp [c1]
+  unfold fromHint
+  cases e0 : naFromHint S.E S.guardP S.tab h0 with
+  | oob => exact absurd e0 na
+  | fuel => simp
+  | ok x =>
+    cases e1 : abFromHint S.E S.guardQ S.mulAlpha S.ztab h1 with
+    | oob => exact absurd e1 ab
+    | fuel => simp
+    | ok y => simp
 
 /-- the searches themselves never read outside tables of 20 entries -/
 theorem to_hint_index_safe (S : Search Fp) (ht : S.tab.length = NTAB) (hz : S.ztab.length = NTAB) (fuel : Nat) :
@@ -218,36 +220,21 @@ theorem to_hint_index_safe (S : Search Fp) (ht : S.tab.length = NTAB) (hz : S.zt
     | fuel => simp
     | ok b => simp
 
-/-- NEGATION of index safety for C `int` hints: every negative hint passes the C guard `hint < 20`
-    and makes `from_hint` read outside NQR_TABLE. -/
-theorem from_hint_negative_oob (S : Search Fp) (h0 h1 : Int) (hneg : h0 < 0) :
-    h0 < (NTAB : Int) ∧ fromHint S h0 h1 = .oob := by
-  have hg : h0 < (NTAB : Int) := by unfold NTAB; omega
-  refine ⟨hg, ?_⟩
+/-- the guards re-extracted from the current basis.c (SqiGen.BasisGuard, tie T) are exactly "0 ≤ hint < 20": weakening either
+    `if` (e.g. back to `hint < 20`, or to `hint <= 20`) breaks this theorem -/
+theorem generated_guards_ok :
+    GuardOK (SqiGen.BasisGuard.holds SqiGen.BasisGuard.notAboveFromHint) ∧
+    GuardOK (SqiGen.BasisGuard.holds SqiGen.BasisGuard.aboveFromHint) := by
+  constructor <;> intro h <;>
+    simp only [SqiGen.BasisGuard.holds, SqiGen.BasisGuard.notAboveFromHint, SqiGen.BasisGuard.aboveFromHint, List.all_cons, List.all_nil,
+      SqiGen.BasisGuard.atom, Bool.and_true, Bool.and_eq_true, decide_eq_true_eq, NTAB] <;> omega
+
+/-- historical (pinned code before 6d4be0a): with the guard `hint < 20` alone every negative hint read outside the table —
+    the model of that code (`guard := fun h => h < 20`) reports `oob` at −1; kept as the regression witness -/
+theorem old_guard_negative_oob (S : Search Fp) (h1 : Int) :
+    fromHint { S with guardP := fun h => decide (h < (NTAB : Int)) } (-1) h1 = .oob := by
   unfold fromHint naFromHint readTab
-  have : ¬ (0 ≤ h0) := by omega
-  simp [hg, this]
-
-/-- the same for the second hint (Z_NQR_TABLE) -/
-theorem from_hint_negative_oob_Q (S : Search Fp) (h0 h1 : Int) (p0 : 0 ≤ h0) (ht : S.tab.length = NTAB) (hneg : h1 < 0) :
-    h1 < (NTAB : Int) ∧ fromHint S h0 h1 = .oob := by
-  have hg : h1 < (NTAB : Int) := by unfold NTAB; omega
-  refine ⟨hg, ?_⟩
-  have hn : ¬ (0 ≤ h1) := by omega
-  unfold fromHint abFromHint naFromHint
-  by_cases c0 : h0 < (NTAB : Int)
-  · simp only [c0, if_true]
-    have s0 := readTab_safe S.tab h0 p0 (by rw [ht]; exact c0)
-    cases e0 : readTab S.tab h0 with
-    | oob => exact absurd e0 s0
-    | fuel => unfold readTab at e0; simp only [p0, if_true] at e0; split at e0 <;> cases e0
-    | ok x => simp [hg, readTab, hn]
-  · simp [c0, hg, readTab, hn]
-
-/-- concrete witness replayed on the real code under ASan by tools/props/c10.py: hint = −1 -/
-theorem from_hint_guard_insufficient :
-    ∃ h : Int, h < (NTAB : Int) ∧ ∀ (Fp : Type) (S : Search Fp) (h1 : Int), fromHint S h h1 = .oob :=
-  ⟨-1, by decide, fun _ S h1 => (from_hint_negative_oob S (-1) h1 (by decide)).2⟩
+  simp [NTAB]
 
 /-! ## (iii) order / independence from named 2-descent hypotheses (PARTIAL) -/
 section Torsion
@@ -377,6 +364,17 @@ theorem L3_tables : tablesOK SqiGen.L3.FP_p
 theorem L5_tables : tablesOK SqiGen.L5.FP_p
     (decodeTab SqiGen.L5.FP_p SqiGen.L5.D_NWORDS_FIELD SqiGen.L5.W64.NQR_TABLE)
     (decodeTab SqiGen.L5.FP_p SqiGen.L5.D_NWORDS_FIELD SqiGen.L5.W64.Z_NQR_TABLE) = true := by decide +kernel
+
+theorem search_guards (p nwords : Nat) (t z : List F2) (A C : F2) (fP fQ : Nat) :
+    GuardOK (search p nwords t z A C fP fQ).guardP ∧ GuardOK (search p nwords t z A C fP fQ).guardQ := generated_guards_ok
+
+/-- level 1, every curve, every pair of C `int` hints: no out-of-bounds table read in from_hint (similarly levels 3, 5) -/
+theorem L1_from_hint_index_safe (A C : F2) (h0 h1 : Int) :
+    fromHint (search SqiGen.L1.FP_p SqiGen.L1.D_NWORDS_FIELD SqiGen.L1.W64.NQR_TABLE SqiGen.L1.W64.Z_NQR_TABLE A C 0 0) h0 h1 ≠ .oob := by
+  have h := L1_tables
+  unfold tablesOK at h
+  simp only [Bool.and_eq_true, beq_iff_eq] at h
+  exact from_hint_index_safe _ h.1.1.1 h.1.1.2 generated_guards_ok.1 generated_guards_ok.2 h0 h1
 
 /-- hence the index-safety hypotheses hold for every level-1 search (similarly levels 3, 5) -/
 theorem L1_search_index_safe (A C : F2) (fP fQ fuel : Nat) :
